@@ -258,6 +258,85 @@ Definition c_get_group_by_index (t : tag) (idx : Z) (c : container) : res contai
       else nth_res (Z.to_nat (len + idx)) g
   end.
 
+(* ---------------------------------------------------------------- items reached through the accessors *)
+
+(* The accessors hand out the stored item objects themselves, so a method called on
+   c.get_group_by_index(t, i) / c.get_group_by_tag(t, gt, gv) / c.get_group_list(t)[n] changes c.
+   A path of such accessor calls is modelled as a functional update of the item at that position. *)
+Inductive pstep :=
+| SIdx (t : tag) (idx : Z)             (* .get_group_by_index(t, idx) *)
+| STag (t gt : tag) (gv : str)         (* .get_group_by_tag(t, gt, gv) *)
+| SList (t : tag) (n : Z).             (* .get_group_list(t)[n] *)
+
+Fixpoint set_nth {A} (n : nat) (x : A) (l : list A) : list A :=
+  match n, l with
+  | O, _ :: l' => x :: l'
+  | S n', y :: l' => y :: set_nth n' x l'
+  | _, [] => []
+  end.
+
+Definition py_pos (idx : Z) (len : nat) : nat :=
+  if (0 <=? idx)%Z then Z.to_nat idx else Z.to_nat (Z.of_nat len + idx).
+
+(* position of the item get_group_by_index returns *)
+Definition idx_pos (idx : Z) (len : nat) : res nat :=
+  if (Z.of_nat len <=? idx)%Z || (idx <? - Z.of_nat len)%Z then Exc ETagNotFound else Ok (py_pos idx len).
+
+(* position of list[n] *)
+Definition list_pos (n : Z) (len : nat) : res nat :=
+  if (Z.of_nat len <=? n)%Z || (n <? - Z.of_nat len)%Z then Exc EIndexError else Ok (py_pos n len).
+
+(* position of the item get_group_by_tag returns *)
+Fixpoint find_group_pos (gt : tag) (gv : str) (g : list container) : res nat :=
+  match g with
+  | [] => Exc ETagNotFound
+  | x :: g' =>
+      let rest := match find_group_pos gt gv g' with Ok n => Ok (S n) | Exc e => Exc e end in
+      if c_contains gt x then
+        match c_get gt DRaise x with
+        | Exc e => Exc e
+        | Ok r => if rval_is r gv then Ok O else rest
+        end
+      else rest
+  end.
+
+Definition step_tag (s : pstep) : tag :=
+  match s with SIdx t _ | STag t _ _ | SList t _ => t end.
+
+(* key, group, position and item one accessor call reaches *)
+Definition locate (s : pstep) (c : container) : res (str * list container * nat * container) :=
+  match c_get_group_list (step_tag s) c with
+  | Exc e => Exc e
+  | Ok g =>
+      match (match s with
+             | SIdx _ idx => idx_pos idx (length g)
+             | STag _ gt gv => find_group_pos gt gv g
+             | SList _ n => list_pos n (length g)
+             end) with
+      | Exc e => Exc e
+      | Ok n =>
+          match nth_error g n with
+          | Some x => Ok (tag_str (step_tag s), g, n, x)
+          | None => Exc EIndexError
+          end
+      end
+  end.
+
+(* call f on the item at the end of the path; c afterwards and f's result, or the error of the
+   accessor that failed (nothing changed then) *)
+Fixpoint at_path {R : Type} (path : list pstep) (f : container -> container * R) (c : container)
+  : container * res R :=
+  match path with
+  | [] => let (c', r) := f c in (c', Ok r)
+  | s :: path' =>
+      match locate s c with
+      | Exc e => (c, Exc e)
+      | Ok (k, g, n, x) =>
+          let (x', r) := at_path path' f x in
+          (with_items c (assign k (VGrp (set_nth n x' g)) (items c)), r)
+      end
+  end.
+
 (* ---------------------------------------------------------------- FIXContainer(dict) *)
 
 (* the argument language: a dict literal whose values are plain values or lists whose items are
